@@ -196,6 +196,8 @@ TYPO_PARAS: list[tuple[str, list[str]]] = [
     ("dots-then-quote", ['qaa..."qab', 'qac"', "qad...'qae'", "qaf"]),
     ("quote-then-dots", ['"qaa"...qab', "'qac'...", "qad"]),
     ("ellipsis-char", ['qaa…"qab"', "qac…'qad'", "“qae”…"]),
+    ("dots-paren", ["qaa...", "(qab)", "qac...", '"qad"', "qae...", "[qaf](u)", "qag"]),
+    ("tag-and-marker-words", ["qaa", "{% qza %}", "qab", "2019.", "qac", "|", "qad", "3)", "qae"]),
 ]
 
 
@@ -305,6 +307,10 @@ VERBATIM_WORDS: list[tuple[str, list[str]]] = [
     ("apos-after-code", ["`qza`'s", "qzb"]),
     ("possessives", ["qzas'", "qzb's", "qzc'd"]),
     ("code-span-3", ["```qza``qzb```"]),
+    ("link-dest-paren-order", ["[qza](<http://u/a)(b>)"]),
+    ("link-dest-paren-order-title", ['[qza](<http://u/a)(b> "T")']),
+    ("two-tags-dots", ["{% qza %}", "qzb", '{% qzc t="qzd...qze" %}']),
+    ("two-comments-dots", ["<!-- qza -->", "qzb...", "<!-- qzc...qzd -->"]),
     ("code-span-2-inner", ["``qza`qzb``"]),
     ("link-dest-angle", ["[qza](<a b> 'T')"]),
     ("link-dest-angle-paren", ["[qza](<a(b> \"T\")"]),
@@ -328,6 +334,7 @@ VERBATIM_BLOCKS: list[tuple[str, str]] = [
     ("code-formfeed", "qaa\n\n```\na\x0cb\nc\u2028d\ne\x1cf\x85g\n```\n\nqab\n"),
     ("code-vtab-cr", "qaa\n\n```\na\x0bb\n```\n\nqab\n"),
     ("refdef-angle", "[qaa][r] qab\n\n[r]: <http://u/a b> \"T\"\n"),
+    ("footnote-multi", 'qaa[^n] "qab"\n\n[^n]: "qac qad\n\n    qae" qaf\'s\n\n    ```\n    "x" it\'s...\n    ```\n\n    "qag"...\n'),
     ("tag-softbreak", 'qaa {% qza\nk="1...5" j=\'a\' %} qab "qac"... qad\n'),
     ("comment-softbreak", 'qaa <!-- it\'s\n"x"...y --> qab\'s qac...\n'),
     ("code-softbreak", 'qaa `it\'s\n"x"...y` qab...\n'),
